@@ -379,6 +379,25 @@ impl Dir {
                 .unwrap_or_default();
             (n, rec)
         });
+        // the lookups by uuid that front ends use (internal, impersonated, impersonated + reduced)
+        let by_uuid: Vec<[bool; 3]> = self.srv.read(|r| {
+            let id = kanidmd_lib::verif_hooks::identity_internal();
+            // the reduced lookup needs an identity that access profiles apply to: the built-in
+            // admin (a recycle-bin administrator)
+            let adm = r.internal_search_uuid(UUID_ADMIN).map(Identity::from_impersonate_entry_readwrite);
+            (0..NSLOTS).map(|s| [r.internal_search_uuid(slot_uuid(s)).is_ok(), r.impersonate_search_uuid(slot_uuid(s), &id).is_ok(), adm.as_ref().map(|a| r.impersonate_search_ext_uuid(slot_uuid(s), a).is_ok()).unwrap_or(false)]).collect()
+        });
+        for s in 0..NSLOTS {
+            let found = by_uuid[s];
+            let names = ["internal_search_uuid", "impersonate_search_uuid", "impersonate_search_ext_uuid"];
+            for (k, f) in found.iter().enumerate() {
+                match (lives[s], *f) {
+                    (Life::Live, false) if self.cfg.slots.contains(&s) && k < 2 => out.push((format!("live_not_found_by_uuid:{}", names[k]), format!("live slot {s} is not found by {}", names[k]))),
+                    (Life::Recycled | Life::Tombstone | Life::Absent, true) => out.push((format!("deleted_entry_found_by_uuid:{}", names[k]), format!("slot {s} ({:?}) is returned by the normal lookup {}", lives[s], names[k]))),
+                    _ => {}
+                }
+            }
+        }
         for s in 0..NSLOTS {
             let u = slot_uuid(s);
             match lives[s] {
